@@ -1,4 +1,5 @@
 import StrettoModel.Proofs.Cache
+import StrettoModel.Props.C04
 /-!
 # C11 — clear() empties the cache and leaves it fully usable
 
@@ -127,6 +128,17 @@ theorem clear_returns_only_when_served (c : Cache) (id : Nat) (h : c.mayReturn i
   · left; simpa using h
   · right; exact h.2
 
+/-- **behaves like a fresh cache** (from C04's refinement): after any sequential history, once a
+`clear()` has been taken to quiescence, every later history of inserts (any TTL or none, re-using old
+keys), removes, lookups, ticks and clears is a run of the abstract map with TTLs started from the
+*empty* map — word for word what `C04.refines_ttl_map` states of a newly built cache. -/
+theorem behaves_like_fresh (su : Nat → Nat → Bool) (cfg : Cfg) (maxCost : Int) (samples : Nat) (hcap : 0 < cfg.bufCap)
+    (ops₁ ops₂ : List C04.QOp) (id : Nat) (c₁ c : Cache)
+    (h₁ : C04.QRun su (Cache.init cfg maxCost samples) ops₁ c₁) (hok : C04.OpOk c₁ (.clear id))
+    (h₂ : C04.QRun su (C04.qstep su c₁ (.clear id)) ops₂ c) :
+    C04.Quiet c ∧ C04.SpecRun su (fun _ => none) ops₂ (fun k => c.store.items.get k) :=
+  C04.cleared_is_fresh_map su cfg maxCost samples hcap ops₁ ops₂ id c₁ c h₁ hok h₂
+
 -- non-vacuity -------------------------------------------------------------------------------
 def exCfg : Cfg := { itemSize := 56, ignoreInternal := false, bufCap := 4, ringCap := 2, pqCap := some 3, metricsOn := true }
 def exBusy : Cache :=
@@ -146,3 +158,4 @@ end Stretto.C11
 #print axioms Stretto.C11.drain_accounts
 #print axioms Stretto.C11.clear_releases_requester
 #print axioms Stretto.C11.clear_returns_only_when_served
+#print axioms Stretto.C11.behaves_like_fresh
